@@ -381,7 +381,7 @@ Record msa_ok (m : msa) (n : nat) : Prop := {
   mo_nz : Forall (fun i => i <> 0) (m_ids m);
   mo_local : incr_fromb 0 (m_local m) = true /\ forallb (fun i => (i <? n)%nat) (m_local m) = true;
   mo_swaps : swaps_okb 0 n (m_swaps m) = true;
-  mo_cons : match m_cons m with None => True | Some c => length c = n /\ Forall cons_seg_ok c end }.
+  mo_cons : match m_cons m with None => True | Some c => (1 <= length c <= n)%nat /\ Forall cons_seg_ok c end }.
 
 Lemma msa_okb_ok : forall m, msa_okb m = true -> msa_ok m (length (hd [] (m_alm m))).
 Proof.
@@ -401,7 +401,8 @@ Proof.
   - split; assumption.
   - exact K0.
   - destruct (m_cons m) as [c|]; [|exact I].
-    apply andb_true_iff in K. destruct K as [L F]. split; [apply Nat.eqb_eq, L|].
+    apply andb_true_iff in K. destruct K as [L F]. apply andb_true_iff in L. destruct L as [L1 L2].
+    apply Nat.leb_le in L1, L2. split; [lia|].
     apply Forall_forall. intros s Is. rewrite forallb_forall in F. apply cons_seg_okb_ok, F, Is.
 Qed.
 
@@ -474,8 +475,21 @@ Qed.
 (* ------------------------------------------------------------------ *)
 Lemma list2msa_consensus : forall vals rest a,
   list2msa ((s_zero :: s_CONSENSUS :: vals) :: rest) a
-  = list2msa rest (mk_msa_read (r_ids a) (r_taxa a) (r_alm a) (r_seqs a) (r_local a) (r_swaps a) (Some vals)).
+  = list2msa rest (mk_msa_read (r_ids a) (r_taxa a) (r_alm a) (r_seqs a) (r_local a) (r_swaps a) (Some (rstrip_empty vals))).
 Proof. reflexivity. Qed.
+
+Lemma lstrip_empty_repeat : forall k r, lstrip_empty (repeat [] k ++ r) = lstrip_empty r.
+Proof. induction k as [|k IH]; intros r; [reflexivity|]. cbn [repeat app lstrip_empty nullb]. apply IH. Qed.
+
+(* the padding cells are dropped, the consensus itself (non-empty segments) is kept *)
+Lemma rstrip_empty_pad : forall (c : list str) k, Forall (fun s => s <> []) c -> rstrip_empty (c ++ repeat [] k) = c.
+Proof.
+  intros c k F. unfold rstrip_empty. rewrite rev_app_distr, rev_repeat, lstrip_empty_repeat.
+  destruct c as [|x c'] using rev_ind; [reflexivity|].
+  rewrite rev_app_distr. cbn [rev app lstrip_empty].
+  apply Forall_app in F. destruct F as [_ F]. inversion F as [|? ? Hx _]; subst.
+  destruct x; [congruence|]. cbn [nullb]. cbn [rev]. rewrite rev_involutive. reflexivity.
+Qed.
 
 Lemma const_notab : forall (name : str), forallb (fun c => negb (c =? 9)) name = true -> ~ In 9 name.
 Proof. intros name H I. rewrite forallb_forall in H. specialize (H 9 I). discriminate H. Qed.
@@ -541,16 +555,24 @@ Proof.
   { intros rest. unfold Cp, a2, a3. pose proof (mo_cons _ _ OK) as MC.
     destruct (m_cons m) as [c|]; [|reflexivity]. destruct MC as [LC FCo].
     destruct c as [|x c]; [cbn [length] in LC; lia|].
-    assert (CE : cons_cells n (x :: c) = x :: c).
-    { unfold cons_cells. rewrite LC, Nat.sub_diag. cbn [repeat]. rewrite app_nil_r.
-      rewrite <- (map_id (x :: c)) at 2. apply map_ext_in. intros s I. rewrite Forall_forall in FCo.
+    assert (MC : map merge_cell (x :: c) = x :: c).
+    { rewrite <- (map_id (x :: c)) at 2. apply map_ext_in. intros s I. rewrite Forall_forall in FCo.
       destruct (FCo s I) as [_ [_ [_ E]]]. exact E. }
-    cbn [map app]. rewrite CE. rewrite ann_cells; [|reflexivity|discriminate|apply const_notab; reflexivity|discriminate|].
+    assert (NE : Forall (fun s : str => s <> []) (x :: c)).
+    { eapply Forall_impl; [|exact FCo]. intros s [[[E _] _] _]. exact E. }
+    assert (NM : map norm (x :: c) = x :: c).
+    { rewrite <- (map_id (x :: c)) at 2. apply map_ext_in. intros s I. rewrite Forall_forall in FCo.
+      destruct (FCo s I) as [SO _]. apply norm_seg, SO. }
+    cbn [map app]. unfold cons_cells. rewrite MC.
+    rewrite ann_cells; [|reflexivity|discriminate|apply const_notab; reflexivity|discriminate|].
     + rewrite list2msa_consensus. cbn [r_ids r_taxa r_alm r_seqs r_local r_swaps].
-      assert (map norm (x :: c) = x :: c) as ->; [|reflexivity].
-      rewrite <- (map_id (x :: c)) at 2. apply map_ext_in. intros s I. rewrite Forall_forall in FCo.
-      destruct (FCo s I) as [SO _]. apply norm_seg, SO.
-    + eapply Forall_impl; [|exact FCo]. intros s [SO _]. apply seg_notab, SO. }
+      rewrite map_app, NM.
+      assert (map norm (repeat [] (n - length (x :: c))) = repeat [] (n - length (x :: c))) as ->.
+      { induction (n - length (x :: c))%nat as [|j IHj]; [reflexivity|]. cbn [repeat map]. rewrite IHj. reflexivity. }
+      rewrite rstrip_empty_pad by exact NE. reflexivity.
+    + apply Forall_app. split.
+      * eapply Forall_impl; [|exact FCo]. intros s [SO _]. apply seg_notab, SO.
+      * apply Forall_forall. intros s I. apply repeat_spec in I. subst. intros []. }
   (* the rows *)
   destruct (zip3_unzip (m_ids m) (m_taxa m) (m_alm m) (mo_ids _ _ OK) (mo_taxa _ _ OK)) as [U1 [U2 U3]].
   pose proof (rows_ok_zip m n OK) as RO. fold rows in RO, U1, U2, U3.
@@ -831,69 +853,79 @@ Proof.
 Qed.
 
 (* ------------------------------------------------------------------ *)
-(* the state add_alignments rebuilds from the columns is not affected by the reordering of the rows *)
-Lemma filter_isort_in : forall (p : row -> bool) (leb : row -> row -> bool) l,
-  (forall x y, In x l -> In y l -> p x = true -> p y = true -> leb x y = true) ->
-  filter p (isort leb l) = filter p l.
+(* the state add_alignments rebuilds from the columns is not affected by the reordering of the rows:
+   the words of one doculect are taken in id order (246780d), and the ids are distinct *)
+Lemma insert_id_comm : forall (x y : row) l, fst x <> fst y ->
+  insert_by id_leb x (insert_by id_leb y l) = insert_by id_leb y (insert_by id_leb x l).
 Proof.
-  intros p leb. induction l as [|x l IH]; intros H; [reflexivity|].
-  rewrite isort_cons, filter_insert.
-  - rewrite IH by (intros a b Ia Ib; apply H; right; assumption). cbn [filter]. destruct (p x); reflexivity.
-  - intros Px y Iy Py. apply H; [left; reflexivity| |exact Px|exact Py].
-    right. eapply Permutation_in; [apply isort_perm|exact Iy].
+  intros x y l N. induction l as [|z l IH].
+  - cbn [insert_by]. unfold id_leb. destruct (fst x <=? fst y) eqn:E1; destruct (fst y <=? fst x) eqn:E2; try reflexivity; lia.
+  - cbn [insert_by]. unfold id_leb in *.
+    destruct (fst y <=? fst z) eqn:Ey; destruct (fst x <=? fst z) eqn:Ex; cbn [insert_by]; unfold id_leb.
+    + destruct (fst x <=? fst y) eqn:E1; destruct (fst y <=? fst x) eqn:E2; rewrite ?Ex, ?Ey; try reflexivity; lia.
+    + assert (fst x <=? fst y = false) as -> by lia. assert (fst y <=? fst x = true) as E by lia.
+      rewrite Ex, Ey. reflexivity.
+    + assert (fst y <=? fst x = false) as -> by lia. rewrite Ex, Ey. reflexivity.
+    + rewrite Ex, Ey. f_equal. exact IH.
 Qed.
 
-Lemma index_of_mem : forall s l, mem_str s l = true -> exists i, index_of s l = Some i.
+Lemma isort_id_perm : forall l l' : list row, Permutation l l' -> NoDup (map fst l) ->
+  isort id_leb l = isort id_leb l'.
 Proof.
-  intros s. induction l as [|x l IH]; intros H; [discriminate H|].
-  cbn [mem_str] in H. cbn [index_of]. destruct (str_eqb s x); [exists O; reflexivity|].
-  cbn [orb] in H. destruct (IH H) as [i E]. rewrite E. exists (S i). reflexivity.
+  intros l l' P. induction P as [|x l l' P IH|x y l|l l' l'' P1 IH1 P2 IH2]; intros ND.
+  - reflexivity.
+  - rewrite !isort_cons. cbn [map] in ND. inversion ND; subst. rewrite IH by assumption. reflexivity.
+  - rewrite !isort_cons. cbn [map] in ND. inversion ND as [|? ? N1 _]; subst.
+    apply insert_id_comm. intros E. apply N1. left. symmetry. exact E.
+  - rewrite IH1 by exact ND. apply IH2. eapply Permutation_NoDup; [apply Permutation_map, P1|exact ND].
 Qed.
 
-Theorem selc_sorted : forall tbl w ref k t, wl_ok tbl w -> no_crossb (wl_cols w) ref (wl_rows w) = true ->
-  selc (wl_cols w) ref (sorted_rows w) k t = selc (wl_cols w) ref (wl_rows w) k t.
+Lemma filter_perm : forall {A} (p : A -> bool) l l', Permutation l l' -> Permutation (filter p l) (filter p l').
 Proof.
-  intros tbl w ref k t OK NC. unfold selc, sorted_rows.
-  assert (LU : Forall (fun c => lower (upper c) = c) (wl_cols w)).
-  { eapply Forall_impl; [|apply (ok_cols _ _ OK)]. intros a [_ [_ [E _]]]. exact E. }
-  rewrite (index_of_upper _ LU).
-  destruct (index_of_mem _ _ (ok_concept _ _ OK)) as [i Ei]. rewrite Ei.
-  pose proof (ok_keys _ _ OK) as KS. rewrite (index_of_upper _ LU), Ei in KS.
-  apply filter_isort_in. intros x y Ix Iy Px Py.
-  apply andb_true_iff in Px. destruct Px as [Px1 Px2]. apply andb_true_iff in Py. destruct Py as [Py1 Py2].
-  unfold no_crossb in NC. rewrite forallb_forall in NC. specialize (NC x Ix). rewrite forallb_forall in NC.
-  specialize (NC y Iy).
-  assert (SG : same_groupb (wl_cols w) ref x y = true).
-  { unfold same_groupb.
-    destruct (cell_int (get_col (wl_cols w) ref x)) as [a|]; [|discriminate Px1].
-    destruct (cell_int (get_col (wl_cols w) ref y)) as [b|]; [|discriminate Py1].
-    apply Z.eqb_eq in Px1, Py1. subst a b. rewrite Z.eqb_refl. cbn [andb].
-    apply cell_is_eq in Px2. apply cell_is_eq in Py2. rewrite Px2, Py2. apply str_eqb_refl. }
-  rewrite SG in NC. cbn [negb orb] in NC.
-  rewrite forallb_forall in KS. pose proof (KS x Ix) as Kx. pose proof (KS y Iy) as Ky.
-  unfold row_leb. unfold get_col in NC. rewrite Ei in NC. unfold key_cell in *.
-  destruct (nth i (snd x) VNone) as [| |sx| | | |]; try discriminate Kx.
-  destruct (nth i (snd y) VNone) as [| |sy| | | |]; try discriminate Ky.
-  cbn [cell_eqb] in NC. apply str_eqb_eq in NC. subst sy. cbn [cell_leb]. apply str_leb_refl.
+  intros A p l l' P. induction P as [|x l l' P IH|x y l|l l' l'' P1 IH1 P2 IH2].
+  - apply Permutation_refl.
+  - cbn [filter]. destruct (p x); [apply perm_skip|]; exact IH.
+  - cbn [filter]. destruct (p x); destruct (p y); try apply Permutation_refl. apply perm_swap.
+  - eapply perm_trans; eassumption.
+Qed.
+
+Lemma NoDup_map_filter : forall (p : row -> bool) l, NoDup (map fst l) -> NoDup (map fst (filter p l)).
+Proof.
+  intros p. induction l as [|x l IH]; intros ND; [constructor|].
+  cbn [map] in ND. inversion ND as [|? ? N1 N2]; subst. cbn [filter]. destruct (p x); [|apply IH, N2].
+  cbn [map]. constructor; [|apply IH, N2].
+  intros I. apply N1. apply in_map_iff in I. destruct I as [y [E Iy]]. apply filter_In in Iy. destruct Iy as [Iy _].
+  rewrite <- E. apply in_map, Iy.
+Qed.
+
+Theorem selc_sorted : forall tbl w ref k t, wl_ok tbl w ->
+  isort id_leb (selc (wl_cols w) ref (sorted_rows w) k t) = isort id_leb (selc (wl_cols w) ref (wl_rows w) k t).
+Proof.
+  intros tbl w ref k t OK. unfold selc. apply isort_id_perm.
+  - apply filter_perm, sorted_rows_perm.
+  - apply NoDup_map_filter.
+    eapply Permutation_NoDup; [apply Permutation_sym, Permutation_map, sorted_rows_perm|apply (ok_ids_nodup _ _ OK)].
 Qed.
 
 Lemma rebuild_ext : forall cols (S1 S2 : Z -> str -> list row) taxa cogids,
-  (forall k t, S1 k t = S2 k t) -> rebuild cols S1 taxa cogids = rebuild cols S2 taxa cogids.
+  (forall k t, isort id_leb (S1 k t) = isort id_leb (S2 k t)) -> rebuild cols S1 taxa cogids = rebuild cols S2 taxa cogids.
 Proof.
   intros cols S1 S2 taxa cogids H. unfold rebuild.
   apply flat_map_ext. intros k. unfold rebuild_one, members.
-  rewrite (flat_map_ext (S1 k) (S2 k)) by (intros t; apply H). reflexivity.
+  rewrite (flat_map_ext (fun t => isort id_leb (S1 k t)) (fun t => isort id_leb (S2 k t))) by (intros t; apply H).
+  reflexivity.
 Qed.
 
 (* THE ALIGNMENT STATE: what Alignments.add_alignments rebuilds from the columns of the object read back
-   is what it rebuilds from the columns of the object saved, for any list of doculects and cognate ids *)
+   is what it rebuilds from the columns of the object saved, for any list of doculects and cognate ids -
+   also for cognate sets that span several concepts inside one doculect *)
 Theorem alignments_state_roundtrip : forall tbl w ref taxa cogids,
-  wl_okb tbl w = true -> no_crossb (wl_cols w) ref (wl_rows w) = true ->
+  wl_okb tbl w = true ->
   alignments_state (wl_cols w) ref taxa cogids (sorted_rows w)
   = alignments_state (wl_cols w) ref taxa cogids (wl_rows w).
 Proof.
-  intros tbl w ref taxa cogids H NC. unfold alignments_state. apply rebuild_ext.
-  intros k t. apply (selc_sorted tbl); [apply wl_okb_ok, H|exact NC].
+  intros tbl w ref taxa cogids H. unfold alignments_state. apply rebuild_ext.
+  intros k t. apply (selc_sorted tbl). apply wl_okb_ok, H.
 Qed.
 
 (* the blocks of a written file are the blocks of its meta section *)
